@@ -30,9 +30,9 @@ ANCHORS = [("leuvenmapmatching/matcher/base.py", "BaseMatching.next"),
 CELLS = [f"cell:{f}:{m}:{'ne' if n else 'e'}" for f in gen.FAMILIES_ALL for m in ("planar", "latlon") for n in (False, True)]
 FLOORS = {c: 60 for c in CELLS}
 FLOORS.update({"pairs_runs": 2500, "triples_runs": 2500, "zero_distance_observations": 1500, "latlon_without_cutoff": 250,
-               "zero_length_road_maps": 150, "size_class:long_chain": 40, "size_class:long_trace": 5, "repeated_observation_traces": 200, "nonempty_matches": 1500})
+               "zero_length_road_maps": 150, "size_class:long_chain": 40, "container_runs:lists": 300, "container_runs:arrays": 300, "container_runs:array2d": 300, "container_runs:npfloat": 300, "size_class:long_trace": 5, "repeated_observation_traces": 200, "nonempty_matches": 1500})
 ASSUMPTIONS = ["valid input = finite coordinates, non-empty trace, positive noise parameters; the trace may be entirely off the map",
-               "pairs-vs-triples: canonical results must be equal (==)"]
+               "pairs-vs-triples and container variants (lists, numpy arrays, one 2-d array, numpy scalars): canonical results must be equal (==)"]
 
 
 def _chain_map(n, twoway, step=1.0):
@@ -151,6 +151,23 @@ def check_case(ctx, case):
                 ctx.count("nonempty_matches")
                 ctx.nontriv(f"{cell}:{case['cls']}:{ctx.cases}")
             ctx.count("zero_distance_observations", sum(1 for x in (mt.lattice_best or []) if x.dist_obs == 0))
+    # the same observations in another container (lists, numpy arrays, one 2-d array, numpy scalars): same result
+    if res[False] is not None and ctx.cases % 4 == 0 and case["cls"] not in ("long_chain", "long_trace"):
+        import numpy as np
+        kind = ["lists", "arrays", "array2d", "npfloat", "tuple_of_tuples"][(ctx.cases // 4) % 5]
+        pts = [tuple(p) for p in case["trace"]]
+        alt = {"lists": [list(p) for p in pts], "arrays": [np.array(p) for p in pts], "array2d": np.array(pts),
+               "npfloat": [tuple(np.float64(x) for x in p) for p in pts], "tuple_of_tuples": tuple(pts)}[kind]
+        ctx.count(f"container_runs:{kind}")
+        try:
+            mt_c = build.make_matcher(build.make_inmem(case["map"]), case["cfg"])
+            r_c = mt_c.match(alt)
+            c_c = build.canon(mt_c, (list(r_c[0]), r_c[1]))
+            if c_c != res[False]:
+                ctx.violation(f"C17:container-changes-the-result:{kind}:{cfg['family']}:{metric}", case, f"tuples {str(res[False])[:300]} {kind} {str(c_c)[:300]}")
+        except Exception as e:
+            t, fn, stem = monitors.classify_exception(e)
+            ctx.violation(f"C17:exc:{t}:{fn}:{stem}:{metric}:container-{kind}", case, f"{type(e).__name__}: {e}")
     a, b = res[False], res[True]
     if a is not None and b is not None and a != b:
         if a["empty"] != b["empty"] or a["idx"] != b["idx"]:
@@ -162,6 +179,17 @@ def check_case(ctx, case):
         ctx.violation(f"C17:triples-change-the-result:{kind}:{cfg['family']}:{metric}", case, f"pairs {str(a)[:400]} triples {str(b)[:400]}")
     ctx.sample(case)
 
+
+# no result depends on the log level: a tenth of the cases runs with the package logger at DEBUG (replayable: the flag is
+# part of the case / of the recorded witness)
+_dbg_gen, _dbg_chk = env.debug_dimension(0.1)
+gen_case = _dbg_gen(gen_case)
+check_case = _dbg_chk(check_case)
+
+# no clause depends on the map backend: a tenth of the eligible cases (integer labels, no linked edges) runs on SqliteMap
+_bk_gen, _bk_chk = build.backend_dimension(0.12)
+gen_case = _bk_gen(gen_case)
+check_case = _bk_chk(check_case)
 
 TECHNIQUE = "runtime monitoring: totality monitor (classified exceptions escaping match on generated hostile valid inputs) + pairs-vs-triples differential"
 LEVEL_TEXT = ("{Q} (quick) / {T} (thorough) generated hostile valid inputs in every (family, metric, non-emitting) cell, each matched with pairs and with "
